@@ -129,6 +129,7 @@ Proof.
   - destruct (lookup u (objs s)) as [ob|]; [|exact W]. destruct (lookup w (objs s)) as [k|]; [|exact W].
     destruct (negb (otype_eqb (oty k) SymmetricKey)). exact W. destruct (negb (is_active k)). exact W.
     destruct (negb (has_bit (omask k) bWRAP_KEY)). exact W. destruct (negb (has_key_block (oty ob))). exact W. destruct cok; exact W.
+  - destruct (lookup u (objs s)); exact W.
 Qed.
 
 Lemma exec_wf : forall h s, wf s -> wf (exec s h).
@@ -190,6 +191,7 @@ Proof.
   - destruct (lookup u (objs s)) as [ob|]; [|exact W]. destruct (lookup w (objs s)) as [k|]; [|exact W].
     destruct (negb (otype_eqb (oty k) SymmetricKey)). exact W. destruct (negb (is_active k)). exact W.
     destruct (negb (has_bit (omask k) bWRAP_KEY)). exact W. destruct (negb (has_key_block (oty ob))). exact W. destruct cok; exact W.
+  - destruct (lookup u (objs s)); exact W.
 Qed.
 
 Lemma exec_typed : forall h s, wf_typed s -> wf_typed (exec s h).
@@ -284,6 +286,7 @@ Proof.
     destruct (negb (has_bit (omask k) bWRAP_KEY)); [inversion H; subst; apply kept_same; assumption|].
     destruct (negb (has_key_block (oty tg))); [inversion H; subst; apply kept_same; assumption|].
     destruct cok; inversion H; subst; apply kept_same; assumption.
+  - destruct (lookup u (objs s)); inversion H; subst; apply kept_same; assumption.
 Qed.
 
 (* ------------------------------------------------------------------ C04 clause 1: transitions *)
@@ -390,6 +393,7 @@ Proof.
     destruct (negb (otype_eqb (oty k) SymmetricKey)); simpl; [lia|]. destruct (negb (is_active k)); simpl; [lia|].
     destruct (negb (has_bit (omask k) bWRAP_KEY)); simpl; [lia|].
     destruct (negb (has_key_block (oty ob))); simpl; [lia|]. destruct cok; simpl; lia.
+  - destruct (lookup u (objs s)); simpl; lia.
 Qed.
 
 (* an identifier that is below the counter and absent is never present again (needed so that "the object u" is
@@ -422,6 +426,7 @@ Proof.
     destruct (negb (otype_eqb (oty k) SymmetricKey)); simpl; [assumption|]. destruct (negb (is_active k)); simpl; [assumption|].
     destruct (negb (has_bit (omask k) bWRAP_KEY)); simpl; [assumption|].
     destruct (negb (has_key_block (oty ob))); simpl; [assumption|]. destruct cok; simpl; assumption.
+  - destruct (lookup u (objs s)); simpl; assumption.
 Qed.
 
 Lemma exec_dead : forall h s v,
